@@ -1307,3 +1307,69 @@ def c06_programs(rng, per_shape):
             p.driver = text
             progs.append(p)
     return progs
+
+
+# ---------------------------------------------------------------------------------------------
+# C13: bystander declarations co-located with generators ('@' = program id)
+
+C13_COMMON = """type pt@ struct{ x, y int }
+
+func (p pt@) Sum() int      { return p.x + p.y }
+func (p *pt@) Shift(d int)  { p.x += d; p.y -= d }
+func idg@[T any](x T) T     { return x }
+func dbl@(x int) int        { return x + x }
+
+const k@ = 7
+
+var tbl@ = []int{3, 1, 4, 1, 5}
+var fnv@ = func(x int) int { return dbl@(x) }
+var cnt@ int
+"""
+
+C13_BODIES = [
+    ("arith", "r := a + k@\nif g1 {\n\tr = r ^ b\n}\nfor i, v := range tbl@ {\n\tr += i*v + len(tbl@)\n}\nreturn r"),
+    ("eta_funcvar", "h := func(x int) int { return x + 1 }\nf := func(x int) int { return h(x) }\nr := f(a)\nh = func(x int) int { return x + 2 }\nreturn (r << 4) ^ f(b)"),
+    ("eta_method_value", "p := pt@{a, b}\nget := func() int { return p.Sum() }\nr := get()\np = pt@{b, 1}\nreturn (r << 4) ^ get()"),
+    ("eta_ptr_receiver", "var q *pt@\nsh := func(d int) { q.Shift(d) }\nq = &pt@{a, b}\nsh(3)\nreturn q.x ^ (q.y << 3)"),
+    ("eta_builtin", "ln := func(s []int) int { return len(s) }\nreturn ln(tbl@) + a"),
+    ("eta_conversion", "cv := func(x int) int32 { return int32(x) }\nreturn int(cv(a)) + b"),
+    ("eta_generic_inferred", "f := func(x int) int { return idg@(x) }\nreturn f(a) + b"),
+    ("eta_generic_explicit", "f := func(x int) int { return idg@[int](x) }\nreturn f(a) + b"),
+    ("eta_declared", "f := func(x int) int { return dbl@(x) }\nreturn f(a) + fnv@(b)"),
+    ("eta_pkg_var", "old := fnv@\nf := func(x int) int { return fnv@(x) }\nr := f(a)\nfnv@ = func(x int) int { return x + 100 }\nr = (r << 4) ^ f(a)\nfnv@ = old\nreturn r"),
+    ("closure_capture", "s := 0\nadd := func(d int) { s += d }\nget := func() int { return s }\nadd(a)\nr := get()\nadd(b)\nreturn (r << 4) ^ get()"),
+    ("global_state", "cnt@ += a\nr := cnt@\ncnt@ = 0\nreturn r + k@"),
+    ("eta_method_expr", "p := pt@{a, b}\nf := func(q pt@) int { return q.Sum() }\nreturn f(p)"),
+    ("eta_variadic_like", "mx := func(x, y int) int { return max@(x, y) }\nreturn mx(a, b)"),
+    ("defer_recover", "r := 0\nfunc() {\n\tdefer func() {\n\t\tif e := recover(); e != nil {\n\t\t\tr = 99\n\t\t}\n\t}()\n\tr = tbl@[a&7]\n}()\nreturn r"),
+    ("range_native", "m := map[int]int{1: a, 2: b}\nr := 0\nfor _, k := range []int{1, 2} {\n\tr = (r << 3) ^ m[k]\n}\nfor i := range \"héllo\" {\n\tr += i\n}\nreturn r"),
+]
+
+C13_EXTRA = """func max@(x, y int) int {
+	if x > y {
+		return x
+	}
+	return y
+}
+"""
+
+
+def c13_programs():
+    progs = []
+    for name, body in C13_BODIES:
+        pid = "b_%s" % name
+        text = C13_COMMON + C13_EXTRA + "\nfunc B@(a, b int, g1 bool) int {\n" + indent(body, 1) + "\n}\n"
+        driver = """func Drive_G@() {
+	a, b := rt.NondetInt(1), rt.NondetInt(2)
+	g1 := rt.NondetBool(4)
+	rt.Emit(rt.RESULT, B@(a, b, g1))
+	rt.Emit(rt.RESULT, B@(b, a, !g1))
+	rt.Emit(rt.RESULT, fnv@(a)+k@+len(tbl@))
+	rt.Emit(rt.END, 0)
+}"""
+        # a generator in the same file so that the file is processed; it also calls the bystander
+        p = Program(pid, [("yield", "a"), ("yield", "dbl@(b)")], helpers="", family="bys", tags={"bystander:" + name})
+        p.driver = (text + "\n" + driver).replace("@", pid)
+        p.body = [("yield", "a"), ("yield", "dbl%s(b)" % pid)]
+        progs.append(p)
+    return progs
